@@ -253,12 +253,19 @@ func checkOps(c opsCase) *harness.Fail {
 			w.Write(uint(o.V), widthOf(o))
 		}
 		w.Flush()
+		w.Flush() // byte-aligned now: nothing left to flush
 		if err := w.AccError(); err != nil {
 			return harness.Failf("C13|Writer|error", "%v", err)
 		}
 		got = buf.Bytes()
 	case "fsw":
-		sw := bits.NewFixedSliceWriter((totalBits + 7) / 8)
+		// an exactly fitting buffer, or (every other case) one with room to spare: a flush that writes more than
+		// the pending bits shows as an overflow in the first and as extra bytes in the second
+		spare := 0
+		if len(c.Ops)%2 == 1 {
+			spare = 5
+		}
+		sw := bits.NewFixedSliceWriter((totalBits+7)/8 + spare)
 		for _, o := range c.Ops {
 			if o.K == "f" {
 				sw.WriteFlag(o.V == 1)
@@ -267,6 +274,7 @@ func checkOps(c opsCase) *harness.Fail {
 			}
 		}
 		sw.FlushBits()
+		sw.FlushBits() // byte-aligned now: nothing left to flush
 		if err := sw.AccError(); err != nil {
 			return harness.Failf("C13|FixedSliceWriter|error", "%v (capacity %d bits %d)", err, (totalBits+7)/8, totalBits)
 		}
